@@ -1,6 +1,6 @@
 (* C04 - command combinators and builder chains mean what they say.  Statements only. *)
-From Coq Require Import List Arith Bool.
-From Crux Require Import Rt.Lang Rt.Rt Rt.Host Rt.Ref Rt.RefProps Rt.RefLaws Rt.Check.
+From Coq Require Import List Arith Bool NArith.
+From Crux Require Import Rt.Lang Rt.Rt Rt.Host Rt.Ref Rt.RefProps Rt.RefLaws Rt.Check Rt.SmallScope Rt.SmallScopeProof.
 Import ListNotations.
 
 (* Full statement (kept visible): for every command and every schedule the runtime model's trace
@@ -11,6 +11,21 @@ Import ListNotations.
 Definition C04_refines_full_statement : Prop :=
   forall p acts t, cmd_abort_free p = true -> sched_abort_free acts = true ->
     direct FUEL0 p acts = Some t -> C04_ok (false, false, p, [], acts, t) = true.
+
+(* The refinement itself on an exhaustive small scope, decided by the kernel (coq/Rt/SmallScope.v): for ALL 1505
+   commands built from tasks of at most two statements (emit, notify, request, stream loops, spawn with and
+   without join, self-wake, join!, select!), an optional extra task and five wrappers (none, then, all with a
+   sibling, map_event over map_effect, and with map_effect), under ALL schedules of at most two shell inputs
+   (resolve or drop any request of the command) with effects / events / is_done inspected before the first and
+   after every input - 24 111 (command, schedule) cases - the trace of the runtime model (queues, wakers, slabs,
+   eviction, forwarding) equals the trace of the reference semantics step for step: same effects and events up
+   to order within a step, same done flags, same result codes.  A finite statement, the bound is part of it. *)
+Theorem C04_refines_on_the_small_scope : forall c acts, In c small_cmds -> In acts (scheds c) ->
+  exists t r, direct FUEL0 c acts = Some t /\ ref_direct RF c acts = Some r /\ list_eqb2 robs_obs_eqb r t = true /\
+              in_fragment (false, false, c, [], acts, t) = true.
+Proof. exact small_scope_refines_each. Qed.
+Theorem C04_small_scope_size : (N.of_nat (length small_cmds), small_scope_size) = (1505%N, 24111%N).
+Proof. exact small_scope_counts. Qed.
 
 (* Laws, for every command, every fuel and every schedule of inspections, resolutions, drops (exact
    equality of traces, resolve result codes and done flags included).  Schedules that also spawn further
